@@ -1328,8 +1328,431 @@ def prove_lemma_bounded(src_root, ex: Explorer, tier):
     ex.run(lemma, 'regex-lemma')
 
 
+# ---------------------------------------------------------------------------
+# nested shared directories: every file is indexed under the innermost shared directory that contains it
+
+PARENTS = f'{MGR}:SharesManager._get_parent_directories'
+CHILDREN = f'{MGR}:SharesManager._get_child_directories'
+ITEMS_FOR = f'{SMODEL_SHARES}:SharedDirectory.get_items_for_directory'
+MOVE = f'{MGR}:SharesManager._move_items'
+ADDDIR = f'{MGR}:SharesManager.add_shared_directory'
+RMDIR = f'{MGR}:SharesManager.remove_shared_directory'
+ANC = z3.Function('is_ancestor_or_self', S, S, B)          # A-ospath: abstract path order on normalised absolute paths
+CP = z3.Function('commonpath', S, S, S)
+
+
+def install_paths(it, ctx):
+    """os.path by its contract: commonpath([p, q]) == q  <=>  q is an ancestor-or-self of p (and symmetric in its arguments)"""
+    def commonpath(it2, a, k):
+        lst = it2.iterate(a[0])
+        if len(lst) != 2:
+            raise Unsupported('commonpath of other than two paths')
+        p, q = z3str(unbox(lst[0])), z3str(unbox(lst[1]))
+        r = CP(p, q)
+        ctx.assume(z3.And((r == q) == ANC(q, p), (r == p) == ANC(p, q), CP(q, p) == r))
+        return Sym(r, 'str')
+    it.natives['os.path.commonpath'] = Native('os.path.commonpath', commonpath)
+
+
+class ADir:
+    """an arbitrary SharedDirectory of the list (real class, symbolic fields)"""
+
+
+def prove_dirs(src_root, ex: Explorer):
+    def relations(ctx: Ctx):
+        it = mk(src_root, ctx)
+        install_paths(it, ctx)
+        a, b = ctx.fresh_str('a'), ctx.fresh_str('b')
+        d1 = new(it, SMODEL_SHARES, 'SharedDirectory', absolute_path=Sym(a, 'str'))
+        d2 = new(it, SMODEL_SHARES, 'SharedDirectory', absolute_path=Sym(b, 'str'))
+        as_obj = ctx.choose(2, 'argument') == 0
+        arg = d2 if as_obj else Sym(b, 'str')
+        r1 = it.truth(it.call(it.getattr(d1, 'is_parent_of'), [arg], {}))
+        ctx.prove('C07.dirs.is_parent_of', r1 == ANC(a, b), 'd.is_parent_of(x) must hold iff d is an ancestor-or-self of x', use_lemmas=False)
+        r2 = it.truth(it.call(it.getattr(d1, 'is_child_of'), [arg], {}))
+        ctx.prove('C07.dirs.is_child_of', r2 == ANC(b, a), 'd.is_child_of(x) must hold iff x is an ancestor-or-self of d', use_lemmas=False)
+    ex.run(relations, 'dir-relations')
+
+    def selections(ctx: Ctx):
+        """the comprehensions of _get_parent_directories / _get_child_directories / get_items_for_directory, element-wise"""
+        it = mk(src_root, ctx)
+        install_paths(it, ctx)
+        which = ctx.choose(3, 'function')
+        a, b = ctx.fresh_str('a'), ctx.fresh_str('b')
+        dirs = DirList(ctx)
+        given = new(it, SMODEL_SHARES, 'SharedDirectory', absolute_path=Sym(a, 'str'), directory='given', alias='aaaaa')
+        other = new(it, SMODEL_SHARES, 'SharedDirectory', absolute_path=Sym(b, 'str'), directory='other', alias='bbbbb')
+        same = ctx.choose(2, 'same-object') == 0
+        result = []
+
+        class Sel:
+            def __init__(self, kind):
+                self.kind = kind
+
+        if which < 2:
+            fn, name = ((PARENTS, '_get_parent_directories'), (CHILDREN, '_get_child_directories'))[which]
+            mgr = new(it, MGR, 'SharesManager', _shared_directories=dirs)
+
+            def comp(it2, node, env):
+                src = it2.eval(node.generators[0].iter, env)
+                cenv = _child_env(env)
+                el = given if same else other
+                it2.assign(node.generators[0].target, el, cenv)
+                keep = z3.And(*[z3.BoolVal(c) if isinstance(c, bool) else c for c in [it2.truth(it2.eval(c, cenv)) for c in node.generators[0].ifs]])
+                elt = it2.eval(node.elt, cenv)
+                want = z3.BoolVal(False) if same else (ANC(b, a) if which == 0 else ANC(a, b))
+                # dataclass equality of two directories: same (directory, absolute_path, alias); distinct list entries differ in absolute_path
+                ctx.prove(f'C07.dirs.{name}', src is dirs and elt is el and len(node.generators) == 1 and ctx.valid(keep == want),
+                          'the selection must keep exactly the OTHER shared directories that are ancestors (descendants) of the given one', use_lemmas=False)
+                return Sel(name)
+            it.comp_specs[(fn, 0)] = comp
+            if which == 0:
+                def sorted_(it2, a_, k):
+                    if a_ and isinstance(a_[0], Sel):
+                        keyf = k.get('key')
+                        ok = keyf is not None and not k.get('reverse')
+                        if ok:
+                            v = it2.call(keyf, [other], {})
+                            ok = ctx.valid(z3int(unbox(v)) == z3.Length(b))
+                        ctx.prove('C07.dirs._get_parent_directories.sorted-by-depth', ok, 'the parents must be sorted by the length of their absolute path, longest last',
+                                  use_lemmas=False)
+                        return a_[0]
+                    raise Unsupported('sorted')
+                it.natives['builtins.sorted'] = Native('builtins.sorted', sorted_)
+            ctx.assume(z3.BoolVal(True) if same else a != b)
+            r = it.call(it.getattr(mgr, name), [given], {})
+            ctx.prove(f'C07.dirs.{name}.returns-selection', isinstance(r, Sel), use_lemmas=False)
+        else:
+            x = ctx.fresh_int('x')
+            ABS = z3.Function('absolute_path', I, S)
+
+            class Items:
+                def pyvc_iter(self, it2, loop):
+                    raise Unsupported('items')
+            items = Items()
+            owner = new(it, SMODEL_SHARES, 'SharedDirectory', absolute_path=Sym(b, 'str'), items=items)
+            w = World(ctx)
+
+            def comp(it2, node, env):
+                src = it2.eval(node.generators[0].iter, env)
+                cenv = _child_env(env)
+                el = Item(w, x)
+                it2.assign(node.generators[0].target, el, cenv)
+                keep = z3.And(*[it2.truth(it2.eval(c, cenv)) for c in node.generators[0].ifs])
+                elt = it2.eval(node.elt, cenv)
+                ctx.prove('C07.dirs.get_items_for_directory', src is items and elt is el and isinstance(node, ast.SetComp) and ctx.valid(keep == ANC(a, ABS(x))),
+                          'exactly the items whose absolute path lies under the given directory must be selected', use_lemmas=False)
+                return Sel('items')
+            it.comp_specs[(ITEMS_FOR, 0)] = comp
+            r = it.call(it.getattr(owner, 'get_items_for_directory'), [given], {})
+            ctx.prove('C07.dirs.get_items_for_directory.returns-selection', isinstance(r, Sel), use_lemmas=False)
+    ex.run(selections, 'dir-selections')
+
+    def move(ctx: Ctx):
+        """_move_items(items, target), one arbitrary item: the new item is owned by target, has the same file name, modification time and
+        attributes, and its subdir is the directory of the old item's absolute path relative to target ('' for target itself)"""
+        it = mk(src_root, ctx)
+        DIRNAME = z3.Function('dirname', S, S)
+        REL = z3.Function('relpath', S, S, S)
+        it.natives['os.path.dirname'] = Native('os.path.dirname', lambda it2, a, k: Sym(DIRNAME(z3str(unbox(a[0]))), 'str'))
+        it.natives['os.path.relpath'] = Native('os.path.relpath', lambda it2, a, k: Sym(REL(z3str(unbox(a[0])), z3str(unbox(a[1]))), 'str'))
+        tabs, iabs, fn = ctx.fresh_str('target_abs'), ctx.fresh_str('item_abs'), ctx.fresh_str('filename')
+        target = new(it, SMODEL_SHARES, 'SharedDirectory', absolute_path=Sym(tabs, 'str'), directory='t', alias='ttttt')
+        old_owner = new(it, SMODEL_SHARES, 'SharedDirectory', absolute_path='/old', directory='o', alias='ooooo')
+        modified = Sym(ctx.fresh_real('modified'), 'real')
+        attrs = [(0, 320)] if ctx.choose(2, 'attributes') else None
+        old = new(it, SMODEL_SHARES, 'SharedItem', shared_directory=old_owner, subdir='whatever', filename=Sym(fn, 'str'), modified=modified, attributes=attrs)
+        it.hooks[f'{SMODEL_SHARES}:SharedItem.get_absolute_path'] = lambda it2, f, a, k: Sym(iabs, 'str') if a[0] is old else (_ for _ in ()).throw(Unsupported('abs'))
+        mgr = new(it, MGR, 'SharesManager')
+        added = []
+
+        class Acc:
+            def pyvc_getattr(self, it2, name):
+                if name == 'add':
+                    return Native('add', lambda it3, a, k: added.append(a[0]))
+                raise Unsupported(name)
+        acc = Acc()
+
+        class Given:
+            def pyvc_iter(self, it2, loop):
+                raise Unsupported('items')
+        given = Given()
+        seen = []
+
+        def loop(it2, node, env):
+            src = it2.eval(node.iter, env)
+            accname = [k for k, v in env.vars.items() if isinstance(v, set) and not v]
+            ctx.prove('C07.move.iterates-items', src is given and len(accname) == 1, use_lemmas=False)
+            if len(accname) != 1:
+                raise PathAbort()
+            env.vars[accname[0]] = acc
+            it2.assign(node.target, old, env)
+            it2.exec_block(node.body, env)
+            seen.append(accname[0])
+        it.loop_specs[(MOVE, 0)] = loop
+        r = it.call(it.getattr(mgr, '_move_items'), [given, target], {})
+        ok = len(seen) == 1 and r is acc and len(added) == 1 and isinstance(added[0], Obj) and added[0].cls.name == 'SharedItem'
+        if ok:
+            n = added[0]
+            rel = REL(DIRNAME(iabs), tabs)
+            ok = (n.attrs.get('shared_directory') is target and ctx.valid(z3str(unbox(n.attrs.get('filename'))) == fn) and n.attrs.get('modified') is modified
+                  and n.attrs.get('attributes') == attrs
+                  and ctx.valid(z3str(unbox(n.attrs.get('subdir'))) == z3.If(rel == z3.StringVal('.'), z3.StringVal(''), rel)))
+        ctx.prove('C07.move.item', ok, 'a moved item must be re-created for the target directory: owner, relative sub-directory, same file', use_lemmas=False)
+    ex.run(move, 'move-items')
+
+    def add(ctx: Ctx):
+        """add_shared_directory: raises without any change when the path is shared already; otherwise creates the directory object, moves
+        exactly the items of the INNERMOST parent that lie under the new directory into it (re-created by _move_items), appends the directory
+        once, indexes the moved items and emits the change event"""
+        it = mk(src_root, ctx)
+        w = World(ctx)
+        shared_already = ctx.choose(2, 'already-shared') == 1
+        has_parent = ctx.choose(2, 'has-parent') == 1
+        log = []
+
+        class Dirs(DirList):
+            def pyvc_getattr(self, it2, name):
+                if name == 'append':
+                    return Native('append', lambda it3, a, k: log.append(('append', a[0])))
+                raise Unsupported(name)
+        dirs = Dirs(ctx)
+        it.hooks[f'{MGR}:SharesManager.is_directory_shared'] = lambda it2, f, a, k: shared_already
+        it.natives['os.path.abspath'] = Native('abspath', lambda it2, a, k: ('abspath', a[0]))
+        it.natives['os.path.normpath'] = Native('normpath', lambda it2, a, k: ('normpath', a[0]))
+        it.hooks[f'{MGR}:SharesManager.generate_alias'] = lambda it2, f, a, k: ('alias-of', a[1])
+        PI, CH, MV = (z3.Const(n, z3.SetSort(I)) for n in ('parent_items', 'children', 'moved'))
+        inner = new(it, SMODEL_SHARES, 'SharedDirectory', items=SymSet(PI, I), absolute_path='/p', directory='/p', alias='ppppp')
+
+        class Parents:
+            def pyvc_truth(self, it2):
+                return has_parent
+
+            def pyvc_getitem(self, it2, idx):
+                if unbox(idx) == 0 and has_parent:
+                    return outer            # the list may hold several parents: the first one is the OUTERMOST
+                if unbox(idx) != -1 or not has_parent:
+                    raise Unsupported('parents[...] other than the first or last one')
+                return inner
+        outer = new(it, SMODEL_SHARES, 'SharedDirectory', items=SymSet(z3.Const('outer_items', z3.SetSort(I)), I), absolute_path='/', directory='/', alias='rrrrr')
+        it.hooks[PARENTS] = lambda it2, f, a, k: (log.append(('parents-of', a[1])), Parents())[1]
+        it.hooks[ITEMS_FOR] = lambda it2, f, a, k: (log.append(('items-for', a[0], a[1])), SymSet(CH, I))[1]
+        it.hooks[MOVE] = lambda it2, f, a, k: (log.append(('move', a[1].term if isinstance(a[1], SymSet) else a[1], a[2])), SymSet(MV, I))[1]
+        it.hooks[REBUILD] = lambda it2, f, a, k: log.append(('rebuild', [e for e in log if e[0] == 'append'], inner.attrs['items'].term))
+        bus = Stub('bus', emit_sync=Recorder('emit_sync', fn=lambda it2, a, k: log.append(('event', a[0]))))
+        mgr = new(it, MGR, 'SharesManager', _shared_directories=dirs, _event_bus=bus, _term_map=TermMap(w))
+        users = ['alice']
+        mode = cls(it, SMODEL_SHARES, 'DirectoryShareMode').enum_members[1]
+        it.sym_containers = False
+        try:
+            r = it.call(it.getattr(mgr, 'add_shared_directory'), ['music/new'], {'share_mode': mode, 'users': users})
+        except PyRaise as pr:
+            ctx.prove('C07.add.rejects-shared', shared_already and pr.exc.cls.name == 'SharedDirectoryError' and not log,
+                      f'raises {pr.exc!r}', use_lemmas=False)
+            return
+        if shared_already:
+            ctx.fail('C07.add.rejects-shared', 'a path that is shared already is added again', use_lemmas=False)
+            return
+        ok = isinstance(r, Obj) and r.cls.name == 'SharedDirectory'
+        ctx.prove('C07.add.object', ok and r.attrs['directory'] == 'music/new' and r.attrs['absolute_path'] == ('normpath', ('abspath', 'music/new'))
+                  and r.attrs['alias'] == ('alias-of', r.attrs['absolute_path']) and r.attrs['share_mode'] is mode and r.attrs['users'] == users,
+                  'the directory object must carry the normalised absolute path, its alias, the share mode and the users', use_lemmas=False)
+        if not ok:
+            return
+        appended = [e for e in log if e[0] == 'append']
+        ctx.prove('C07.add.appended-once', appended == [('append', r)] and ('parents-of', r) in log, use_lemmas=False)
+        items = r.attrs['items']
+        if has_parent:
+            ctx.prove('C07.add.moves-children', ('items-for', inner, r) in log and any(e[0] == 'move' and e[2] is r and ctx.valid(e[1] == CH) for e in log)
+                      and isinstance(items, SymSet) and ctx.valid(items.term == MV) and ctx.valid(inner.attrs['items'].term == z3.SetDifference(PI, CH)),
+                      'the items of the innermost parent that lie under the new directory must be moved into it, and only they', use_lemmas=False)
+        else:
+            ctx.prove('C07.add.no-parent-no-items', (items == set() or (isinstance(items, SymSet) and ctx.valid(items.term == z3.EmptySet(I))))
+                      and not any(e[0] in ('move', 'items-for') for e in log), use_lemmas=False)
+        order = [e[0] for e in log if e[0] in ('append', 'rebuild', 'event')]
+        rb = [e for e in log if e[0] == 'rebuild']
+        ctx.prove('C07.add.rebuilds-term-map', order == ['append', 'rebuild', 'event'] and rb[0][1] == [('append', r)]
+                  and (not has_parent or ctx.valid(rb[0][2] == z3.SetDifference(PI, CH))),
+                  'the moved items are new objects and the old ones may still be referenced: the term map must be rebuilt from the updated '
+                  'directories before the change is announced', use_lemmas=False)
+        ev = [e for e in log if e[0] == 'event']
+        ctx.prove('C07.add.event', len(ev) == 1 and isinstance(ev[0][1], Obj) and ev[0][1].cls.name == 'SharedDirectoryChangeEvent', use_lemmas=False)
+    ex.run(add, 'add-directory')
+
+    def remove(ctx: Ctx):
+        """remove_shared_directory: unknown directory -> error, nothing changed; otherwise the directory leaves the list, its items are
+        re-created for the innermost parent (if any) and the term map is REBUILT from the remaining directories"""
+        it = mk(src_root, ctx)
+        w = World(ctx)
+        known = ctx.choose(2, 'known') == 1
+        by_path = ctx.choose(2, 'by-path') == 1
+        has_parent = ctx.choose(2, 'has-parent') == 1
+        log = []
+        DI, PI, MV = (z3.Const(n, z3.SetSort(I)) for n in ('removed_items', 'parent_items', 'moved'))
+        d = new(it, SMODEL_SHARES, 'SharedDirectory', items=SymSet(DI, I), absolute_path='/p/d', directory='/p/d', alias='ddddd')
+        inner = new(it, SMODEL_SHARES, 'SharedDirectory', items=SymSet(PI, I), absolute_path='/p', directory='/p', alias='ppppp')
+
+        class Dirs(DirList):
+            def pyvc_contains(self, it2, item):
+                return known and item is d
+
+            def pyvc_getattr(self, it2, name):
+                if name == 'remove':
+                    return Native('remove', lambda it3, a, k: log.append(('remove', a[0])))
+                raise Unsupported(name)
+
+        def get_sd(it2, f, a, k):
+            if not known:
+                it2.throw(cls(it2, 'exceptions', 'SharedDirectoryError'), 'not found')
+            return d
+        it.hooks[f'{MGR}:SharesManager.get_shared_directory'] = get_sd
+
+        class Parents:
+            def pyvc_truth(self, it2):
+                return has_parent
+
+            def pyvc_getitem(self, it2, idx):
+                if unbox(idx) == 0 and has_parent:
+                    return outer
+                if unbox(idx) != -1 or not has_parent:
+                    raise Unsupported('parents[...] other than the first or last one')
+                return inner
+        outer = new(it, SMODEL_SHARES, 'SharedDirectory', items=SymSet(z3.Const('outer_items', z3.SetSort(I)), I), absolute_path='/', directory='/', alias='rrrrr')
+        it.hooks[PARENTS] = lambda it2, f, a, k: (log.append(('parents-of', a[1], [e[0] for e in log])), Parents())[1]
+        it.hooks[MOVE] = lambda it2, f, a, k: (log.append(('move', a[1].term if isinstance(a[1], SymSet) else a[1], a[2])), SymSet(MV, I))[1]
+        it.hooks[REBUILD] = lambda it2, f, a, k: log.append(('rebuild', inner.attrs['items'].term))
+        it.hooks[CLEANUP] = lambda it2, f, a, k: log.append(('cleanup',))
+        bus = Stub('bus', emit_sync=Recorder('emit_sync', fn=lambda it2, a, k: log.append(('event', a[0]))))
+        mgr = new(it, MGR, 'SharesManager', _shared_directories=Dirs(ctx), _event_bus=bus, _term_map=TermMap(w))
+        try:
+            r = it.call(it.getattr(mgr, 'remove_shared_directory'), ['/p/d' if by_path else d], {})
+        except PyRaise as pr:
+            ctx.prove('C07.remove.rejects-unknown', (not known) and pr.exc.cls.name == 'SharedDirectoryError' and not log, f'raises {pr.exc!r}', use_lemmas=False)
+            return
+        if not known:
+            ctx.fail('C07.remove.rejects-unknown', 'a directory that is not shared is removed', use_lemmas=False)
+            return
+        ctx.prove('C07.remove.leaves-list', r is d and [e for e in log if e[0] == 'remove'] == [('remove', d)], use_lemmas=False)
+        par = [e for e in log if e[0] == 'parents-of']
+        ctx.prove('C07.remove.parents-after-removal', len(par) == 1 and par[0][1] is d and 'remove' in par[0][2],
+                  'the parents must be looked up among the REMAINING directories', use_lemmas=False)
+        if has_parent:
+            ctx.prove('C07.remove.moves-items-to-parent', any(e[0] == 'move' and e[2] is inner and ctx.valid(e[1] == DI) for e in log)
+                      and ctx.valid(inner.attrs['items'].term == z3.SetUnion(PI, MV)), 'the items must be re-created for the innermost parent', use_lemmas=False)
+        else:
+            ctx.prove('C07.remove.no-parent-drops-items', not any(e[0] == 'move' for e in log) and ctx.valid(inner.attrs['items'].term == PI), use_lemmas=False)
+        rb = [e for e in log if e[0] == 'rebuild']
+        order = [e[0] for e in log]
+        ctx.prove('C07.remove.rebuilds-term-map', len(rb) == 1 and order.index('rebuild') > order.index('remove') and ctx.valid(rb[0][1] == inner.attrs['items'].term)
+                  and order.index('rebuild') < order.index('event'),
+                  'the removed directory keeps its items alive: the term map must be rebuilt from the remaining directories (after the move)', use_lemmas=False)
+    ex.run(remove, 'remove-directory')
+
+    def partition(ctx: Ctx):
+        """pure lemma (Z3): with the contracts above, add_shared_directory preserves
+             PINV  every item lies under its owner, and every shared directory containing it is an ancestor of its owner (innermost owner)
+             UNIQ  no two live items have the same absolute path"""
+        P = z3.DeclareSort('Path')
+        D = I
+        anc = z3.Function('anc', P, P, B)
+        dabs = z3.Function('dir_path', D, P)
+        iabs = z3.Function('item_path', I, P)
+        own = z3.Function('owner', I, D)                  # ghost: the directory whose items set holds the item (before)
+        live = z3.Const('live', z3.SetSort(I))
+        dirs = z3.Const('dirs', z3.SetSort(D))
+        mem = z3.IsMember
+        a, b, c = z3.Const('a', P), z3.Const('b', P), z3.Const('c', P)
+        d_, e_ = z3.Const('d', D), z3.Const('e', D)
+        i_, j_ = z3.Const('i', I), z3.Const('j', I)
+        ctx.lemma(z3.ForAll([a], anc(a, a)))
+        ctx.lemma(z3.ForAll([a, b, c], z3.Implies(z3.And(anc(a, b), anc(b, c)), anc(a, c))))
+        ctx.lemma(z3.ForAll([a, b], z3.Implies(z3.And(anc(a, b), anc(b, a)), a == b)))
+        ctx.lemma(z3.ForAll([a, b, c], z3.Implies(z3.And(anc(a, c), anc(b, c)), z3.Or(anc(a, b), anc(b, a)))))      # ancestors of a path form a chain
+        ctx.lemma(z3.ForAll([d_, e_], z3.Implies(z3.And(mem(d_, dirs), mem(e_, dirs), dabs(d_) == dabs(e_)), d_ == e_)))
+        # before: PINV and UNIQ
+        ctx.lemma(z3.ForAll([i_], z3.Implies(mem(i_, live), z3.And(mem(own(i_), dirs), anc(dabs(own(i_)), iabs(i_))))))
+        ctx.lemma(z3.ForAll([i_, e_], z3.Implies(z3.And(mem(i_, live), mem(e_, dirs), anc(dabs(e_), iabs(i_))), anc(dabs(e_), dabs(own(i_))))))
+        ctx.lemma(z3.ForAll([i_, j_], z3.Implies(z3.And(mem(i_, live), mem(j_, live), iabs(i_) == iabs(j_)), i_ == j_)))
+        new = z3.Const('new', D)
+        ctx.assume(z3.Not(mem(new, dirs)))
+        ctx.lemma(z3.ForAll([e_], z3.Implies(mem(e_, dirs), dabs(e_) != dabs(new))))                                 # C07.add.rejects-shared
+        has_parent = z3.Const('has_parent', B)
+        par = z3.Const('parent', D)
+        # C07.dirs._get_parent_directories + sorted-by-depth + A-ospath (a longer ancestor of the same path is deeper): parents[-1] is the innermost one
+        ctx.lemma(z3.Implies(has_parent, z3.And(mem(par, dirs), anc(dabs(par), dabs(new)),
+                                                z3.ForAll([e_], z3.Implies(z3.And(mem(e_, dirs), anc(dabs(e_), dabs(new))), anc(dabs(e_), dabs(par)))))))
+        ctx.lemma(z3.Implies(z3.Not(has_parent), z3.ForAll([e_], z3.Implies(mem(e_, dirs), z3.Not(anc(dabs(e_), dabs(new)))))))
+        # after: children = {i in items(par) | new contains i} are replaced by mv(i) (C07.move.item + A-ospath: same absolute path), owned by new
+        mv = z3.Function('moved', I, I)
+        pre = z3.Function('moved_from', I, I)
+        child = lambda x: z3.And(has_parent, mem(x, live), own(x) == par, anc(dabs(new), iabs(x)))      # noqa
+        live2 = z3.Const('live2', z3.SetSort(I))
+        own2 = z3.Function('owner2', I, D)
+        ctx.lemma(z3.ForAll([i_], z3.Implies(mem(i_, live2), z3.Or(z3.And(mem(i_, live), z3.Not(child(i_)), own2(i_) == own(i_)),
+                                                                   z3.And(child(pre(i_)), i_ == mv(pre(i_)), own2(i_) == new, z3.Not(mem(i_, live)))))))
+        ctx.lemma(z3.ForAll([i_], z3.Implies(child(i_), z3.And(iabs(mv(i_)) == iabs(i_)))))
+        dirs2 = z3.SetAdd(dirs, new)
+        x, y = z3.Const('x', I), z3.Const('y', I)
+        e0 = z3.Const('e0', D)
+        ctx.assume(z3.And(mem(x, live2), mem(y, live2), mem(e0, dirs2)))
+        ctx.prove('C07.partition.add.vacuity-guard', ctx.consistent(), 'the hypotheses of the partition lemma are contradictory', use_lemmas=False)
+        ctx.prove('C07.partition.add.owner-contains', z3.And(mem(own2(x), dirs2), anc(dabs(own2(x)), iabs(x))), 'after add_shared_directory an item does not lie under its owner')
+        ctx.prove('C07.partition.add.owner-innermost', z3.Implies(anc(dabs(e0), iabs(x)), anc(dabs(e0), dabs(own2(x)))),
+                  'after add_shared_directory an item is not owned by the innermost shared directory containing it')
+        ctx.prove('C07.partition.add.unique', z3.Implies(iabs(x) == iabs(y), x == y), 'after add_shared_directory a file is indexed twice')
+    ex.run(partition, 'partition-add')
+
+    def partition_remove(ctx: Ctx):
+        """pure lemma (Z3): remove_shared_directory preserves PINV and UNIQ (items of the removed directory are re-created for the innermost
+        remaining parent, or leave the index when there is none)"""
+        P = z3.DeclareSort('Path')
+        D = I
+        anc = z3.Function('anc', P, P, B)
+        dabs = z3.Function('dir_path', D, P)
+        iabs = z3.Function('item_path', I, P)
+        own = z3.Function('owner', I, D)
+        live = z3.Const('live', z3.SetSort(I))
+        dirs = z3.Const('dirs', z3.SetSort(D))
+        mem = z3.IsMember
+        a, b, c = z3.Const('a', P), z3.Const('b', P), z3.Const('c', P)
+        d_, e_ = z3.Const('d', D), z3.Const('e', D)
+        i_, j_ = z3.Const('i', I), z3.Const('j', I)
+        ctx.lemma(z3.ForAll([a], anc(a, a)))
+        ctx.lemma(z3.ForAll([a, b, c], z3.Implies(z3.And(anc(a, b), anc(b, c)), anc(a, c))))
+        ctx.lemma(z3.ForAll([a, b], z3.Implies(z3.And(anc(a, b), anc(b, a)), a == b)))
+        ctx.lemma(z3.ForAll([a, b, c], z3.Implies(z3.And(anc(a, c), anc(b, c)), z3.Or(anc(a, b), anc(b, a)))))
+        ctx.lemma(z3.ForAll([d_, e_], z3.Implies(z3.And(mem(d_, dirs), mem(e_, dirs), dabs(d_) == dabs(e_)), d_ == e_)))
+        ctx.lemma(z3.ForAll([i_], z3.Implies(mem(i_, live), z3.And(mem(own(i_), dirs), anc(dabs(own(i_)), iabs(i_))))))
+        ctx.lemma(z3.ForAll([i_, e_], z3.Implies(z3.And(mem(i_, live), mem(e_, dirs), anc(dabs(e_), iabs(i_))), anc(dabs(e_), dabs(own(i_))))))
+        ctx.lemma(z3.ForAll([i_, j_], z3.Implies(z3.And(mem(i_, live), mem(j_, live), iabs(i_) == iabs(j_)), i_ == j_)))
+        gone = z3.Const('removed', D)
+        ctx.assume(mem(gone, dirs))
+        dirs2 = z3.SetDel(dirs, gone)
+        has_parent = z3.Const('has_parent', B)
+        par = z3.Const('parent', D)
+        ctx.lemma(z3.Implies(has_parent, z3.And(mem(par, dirs2), anc(dabs(par), dabs(gone)),
+                                                z3.ForAll([e_], z3.Implies(z3.And(mem(e_, dirs2), anc(dabs(e_), dabs(gone))), anc(dabs(e_), dabs(par)))))))
+        ctx.lemma(z3.Implies(z3.Not(has_parent), z3.ForAll([e_], z3.Implies(mem(e_, dirs2), z3.Not(anc(dabs(e_), dabs(gone)))))))
+        mv = z3.Function('moved', I, I)
+        pre = z3.Function('moved_from', I, I)
+        moved = lambda x: z3.And(mem(x, live), own(x) == gone)      # noqa
+        live2 = z3.Const('live2', z3.SetSort(I))
+        own2 = z3.Function('owner2', I, D)
+        ctx.lemma(z3.ForAll([i_], z3.Implies(mem(i_, live2), z3.Or(z3.And(mem(i_, live), z3.Not(moved(i_)), own2(i_) == own(i_)),
+                                                                   z3.And(has_parent, moved(pre(i_)), i_ == mv(pre(i_)), own2(i_) == par, z3.Not(mem(i_, live)))))))
+        ctx.lemma(z3.ForAll([i_], z3.Implies(moved(i_), iabs(mv(i_)) == iabs(i_))))
+        x, y = z3.Const('x', I), z3.Const('y', I)
+        e0 = z3.Const('e0', D)
+        ctx.assume(z3.And(mem(x, live2), mem(y, live2), mem(e0, dirs2)))
+        ctx.prove('C07.partition.remove.vacuity-guard', ctx.consistent(), 'the hypotheses of the partition lemma are contradictory', use_lemmas=False)
+        ctx.prove('C07.partition.remove.owner-contains', z3.And(mem(own2(x), dirs2), anc(dabs(own2(x)), iabs(x))))
+        ctx.prove('C07.partition.remove.owner-innermost', z3.Implies(anc(dabs(e0), iabs(x)), anc(dabs(e0), dabs(own2(x)))))
+        ctx.prove('C07.partition.remove.unique', z3.Implies(iabs(x) == iabs(y), x == y))
+    ex.run(partition_remove, 'partition-remove')
+
+
 def items(src_root, tier):
-    return [('query', None), ('termmap', None), ('scan', None), ('parse', None), ('lemma', None)]
+    return [('query', None), ('termmap', None), ('scan', None), ('parse', None), ('dirs', None), ('lemma', None)]
 
 
 def run_item(src_root, item, tier):
@@ -1340,7 +1763,7 @@ def run_item(src_root, item, tier):
         if kind == 'lemma':
             prove_lemma_bounded(src_root, ex, tier)
         else:
-            {'query': prove_query, 'termmap': prove_termmap, 'scan': prove_scan, 'parse': prove_parse}[kind](src_root, ex)
+            {'query': prove_query, 'termmap': prove_termmap, 'scan': prove_scan, 'parse': prove_parse, 'dirs': prove_dirs}[kind](src_root, ex)
     except Unsupported as e:
         res.errors.append(f'{kind}: unsupported: {e}')
     collect(res, ex)
